@@ -14,7 +14,7 @@ use std::collections::{BTreeMap, BTreeSet};
 use std::panic::{catch_unwind, AssertUnwindSafe};
 use val::Val;
 use vmon::classify::{classify_lookup, classify_store, pressure, sig};
-use vmon::model::{self, Belief, Cfg, Flavour, Key, LookupOut, Policy, State, Step, SEC};
+use vmon::model::{self, ttl_ns, Belief, Cfg, Flavour, Key, LookupOut, Policy, State, Step, SEC};
 use vmon::report::{hash64, Report};
 use vmon::rng::Rng;
 
@@ -88,6 +88,22 @@ fn all_configs() -> Vec<Cfg> {
             }
         }
     }
+    // ttls far beyond anything the clock reaches ("never expires"): appended so that the indices of
+    // the configurations above stay what they were
+    for flavour in flavour_list() {
+        for policy in Policy::ALL {
+            for ttl in [1u64 << 32, 9_223_372_037, u64::MAX / 1000 + 1, 1u64 << 63, u64::MAX] {
+                for limit in [None, Some(2)] {
+                    for mem in [None, Some(MEMS[1])] {
+                        let fws: &[Option<f64>] = if policy == Policy::Tlru { &FWS[..5] } else { &FWS[..1] };
+                        for fw in fws.iter().step_by(4) {
+                            v.push(Cfg { flavour, policy, limit, ttl: Some(ttl), max_memory: mem, fw: *fw, age_exact: false });
+                        }
+                    }
+                }
+            }
+        }
+    }
     v
 }
 
@@ -119,10 +135,10 @@ fn gen_history(cfg: &Cfg, rng: &mut Rng, next_id: &mut u64) -> (Vec<Op>, bool) {
                 3 => 999_999_999,
                 _ => {
                     // aim at the expiry boundary of some stored key: exactly, 1 ns before, 1 ns after
-                    if let (Some(t), false) = (cfg.ttl, born.is_empty()) {
+                    if let (Some(t), false) = (cfg.ttl.filter(|t| model::ttl_reachable(*t)), born.is_empty()) {
                         let ks: Vec<_> = born.keys().copied().collect();
                         let k = *rng.pick(&ks);
-                        let target = born[&k] + t as i64 * SEC + [-1i64, 0, 1, -SEC, SEC - 1][rng.usize(5)];
+                        let target = born[&k].saturating_add(ttl_ns(t)).saturating_add([-1i64, 0, 1, -SEC, SEC - 1][rng.usize(5)]);
                         (target - now).max(1)
                     } else {
                         SEC / 2
@@ -250,13 +266,13 @@ fn run_history(ctx: &mut Ctx, cfg: &Cfg, ops: &[Op], hist_id: u64, verbose: bool
                     if let Some(e) = pre.get(*k) {
                         if let Some(t) = cfg.ttl {
                             let age = now - e.born;
-                            let d = (age - t as i64 * SEC).abs();
+                            let d = (age - ttl_ns(t)).abs();
                             if d <= 1 {
                                 rep.count("C06", "lookups_within_1ns_of_boundary", 1);
                             } else if d <= SEC {
                                 rep.count("C06", "lookups_within_1s_of_boundary", 1);
                             }
-                            if age >= t as i64 * SEC {
+                            if age >= ttl_ns(t) {
                                 rep.count("C06", "expired_lookups", 1);
                             } else {
                                 rep.count("C06", "live_lookups_with_ttl", 1);
